@@ -1,5 +1,5 @@
 CONSTANTS
-  Guard = FALSE
+  Guard = TRUE
   Plat = "posix"
 INIT GInit
 NEXT GNext
